@@ -131,6 +131,9 @@ func cmdSchedRec(o *Out, line string, f []string) {
 	}
 	// concurrent begin: every worker opens the iteration itself, all at the same moment, instead of the main goroutine
 	concBegin := len(f) > 8 && f[8] == "cb"
+	// trailing increments: after a tick has passed the workers increment again and EndTest follows directly (no
+	// EndIteration in between): EndTest persists what the cycle accumulated, twice G*M
+	trail := len(f) > 9 && f[9] == "trail"
 	var finals []string
 	var endErrs int
 	for c := 0; c < cycles; c++ {
@@ -161,6 +164,20 @@ func cmdSchedRec(o *Out, line string, f []string) {
 		}
 		close(gate)
 		wg.Wait()
+		if trail {
+			time.Sleep(time.Duration(tickUs)*time.Microsecond + 1500*time.Microsecond) // at least one tick
+			var wg2 sync.WaitGroup
+			for g := 0; g < G; g++ {
+				wg2.Add(1)
+				go func() {
+					defer wg2.Done()
+					for m := 0; m < M; m++ {
+						rec.IncOperations(1)
+					}
+				}()
+			}
+			wg2.Wait()
+		}
 		if stallMs > 0 {
 			// let a tick arrive so that the flusher is between its tick and the mutex when EndTest runs
 			time.Sleep(time.Duration(tickUs)*time.Microsecond + 2*time.Millisecond)
@@ -169,7 +186,9 @@ func cmdSchedRec(o *Out, line string, f []string) {
 			// let a tick arrive and the flusher get into the (slow) collector before EndTest runs
 			time.Sleep(time.Duration(tickUs)*time.Microsecond + coll.slow/2)
 		}
-		rec.EndIteration(time.Millisecond)
+		if !trail {
+			rec.EndIteration(time.Millisecond)
+		}
 		if kind == "sync" {
 			// the raw recorder persists at EndIteration; EndTest persists again if a time stamp is set
 		}
@@ -198,9 +217,13 @@ func cmdSchedRec(o *Out, line string, f []string) {
 		if !mono {
 			o.violation(line, "persisted counters went backwards within a test cycle", cyc)
 		}
-		if last != int64(G*M) {
+		issued := G * M
+		if trail {
+			issued = 2 * G * M
+		}
+		if last != int64(issued) {
 			o.violation(line, "finally persisted counter differs from the sum of all increments issued",
-				map[string]interface{}{"cycle": c, "persisted": last, "issued": G * M, "samples": len(cyc)})
+				map[string]interface{}{"cycle": c, "persisted": last, "issued": issued, "samples": len(cyc)})
 		}
 	}
 	coll.mu.Lock()
@@ -551,7 +574,14 @@ func streamSchedRec(o *Out, rng *rand.Rand, thorough bool, _ []string) {
 				G = 4 + rng.Intn(5)
 			}
 		}
-		lines = append(lines, fmt.Sprintf("sched-rec %s %d %d %d %d %d %d %d %s", kind, G, M, cycles, tick, stall, seed, slow, cb))
+		tr := "-"
+		if kind != "sync" && stall == 0 && slow == 0 && cycles <= 6 && rng.Intn(3) == 0 {
+			tr = "trail"
+		}
+		lines = append(lines, fmt.Sprintf("sched-rec %s %d %d %d %d %d %d %d %s %s", kind, G, M, cycles, tick, stall, seed, slow, cb, tr))
+	}
+	for _, kind := range []string{"interval", "histInterval"} {
+		lines = append(lines, fmt.Sprintf("sched-rec %s 4 10 3 500 0 0 0 - trail", kind), fmt.Sprintf("sched-rec %s 2 7 2 100 0 0 0 cb trail", kind))
 	}
 	runIsolated(o, lines, 20*time.Second)
 }
